@@ -13,7 +13,7 @@ def violation(prop, harness, prim, mode, kind, features=None, choices=None, conf
               observed=None, expected=None, repro=None, note=None):
     return dict(property=prop, harness=harness, prim=prim, mode=mode, kind=kind,
                 features={k: str(v) for k, v in (features or {}).items()},
-                choices=list(choices) if choices is not None else None,
+                choices=(choices if isinstance(choices, dict) else list(choices)) if choices is not None else None,
                 config=config, observed=_js(observed), expected=_js(expected), repro=repro, note=note)
 
 
